@@ -172,3 +172,54 @@ async fn gs_first_stop_spawn() {
     *done.borrow_mut() = true;
     assert!(poll_now(driver.as_mut()).is_ready());
 }
+
+/// gs.close.paired / gs.close.unsent [C07]: `close()` returns the two sides of ONE channel, the closing side still holding
+/// its handle: a future made from the receiving side is pending until exactly that closing side is released.
+#[test]
+fn gs_close_paired() {
+    let (mut tx, rx) = close();
+    let (mut other_tx, _other_rx) = close();
+    assert!(tx.0.is_some(), "gs.close.unsent: the closing side comes without its handle");
+    let mut fut = Box::pin(rx.clone().into_future());
+    assert!(poll_now(fut.as_mut()).is_pending(), "gs.close.unsent: a fresh channel is already closed");
+    other_tx.send();
+    assert!(poll_now(fut.as_mut()).is_pending(), "releasing the closing side of ANOTHER channel closed this one");
+    tx.send();
+    assert!(poll_now(fut.as_mut()).is_ready(), "gs.close.paired: the two values returned by close() are not sides of one channel");
+    assert!(rx.0.is_closed());
+}
+
+/// gs.new.shutdown_channel / gs.new.finished_channel / gs.new.server / gs.new.signal [C07]: in what
+/// `Server::with_graceful_shutdown` (= `GracefulShutdown::new`) builds, `shutdown` closes the channel whose receiving side
+/// (`channel`) is cloned into every driver, `connection` closes the channel `finished` waits on, and neither closes the other;
+/// the server has not started and the signal has not been polled.
+#[tokio::test]
+async fn gs_new_channels() {
+    ORDER.with(|o| o.borrow_mut().clear());
+    let log = Rc::new(RefCell::new(Vec::new()));
+    let done = Rc::new(RefCell::new(false));
+    let spawned: Spawned = Rc::new(RefCell::new(Vec::new()));
+    let (_client, incoming) = crate::stream::duplex::pair();
+    let svc = crate::service::make_service_fn(|_: &crate::stream::duplex::DuplexStream| {
+        std::future::ready(Ok::<_, std::convert::Infallible>(tower::service_fn(|_: http::Request<crate::Body>| {
+            std::future::ready(Ok::<_, std::convert::Infallible>(http::Response::new(crate::Body::empty())))
+        })))
+    });
+    let signal = std::future::poll_fn(move |_| { note("signal:pending"); Poll::<()>::Pending });
+    let server = Server::new(NotingAccept(incoming), TestProto { log: log.clone(), done: done.clone() }, svc, Rec(spawned.clone()));
+    let mut gs = server.with_graceful_shutdown(signal);
+    assert!(ORDER.with(|o| o.borrow().is_empty()), "gs.new.server / gs.new.signal: building the future polled something: {:?}", ORDER.with(|o| o.borrow().clone()));
+    assert!(matches!(gs.server.state, State::Preparing), "gs.new.server: the serving future does not start in `Preparing`");
+    assert!(gs.shutdown.0.is_some() && gs.connection.0.is_some(), "a closing side comes without its handle");
+
+    // what a driver gets (`channel.clone()`) is closed by `shutdown` and by nothing else
+    let mut driver_side = Box::pin(gs.channel.clone().into_future());
+    assert!(poll_now(driver_side.as_mut()).is_pending());
+    assert!(poll_now(Pin::new(&mut gs.finished)).is_pending(), "`finished` fired although the server holds `connection`");
+    gs.connection.send();
+    assert!(poll_now(driver_side.as_mut()).is_pending(), "gs.new.shutdown_channel: releasing `connection` closed the drivers' shutdown channel");
+    assert!(poll_now(Pin::new(&mut gs.finished)).is_ready(), "gs.new.finished_channel: `finished` does not wait on the channel of `connection`");
+    gs.shutdown.send();
+    assert!(poll_now(driver_side.as_mut()).is_ready(), "gs.new.shutdown_channel: `shutdown` does not close the channel handed to the drivers");
+    assert!(gs.channel.0.is_closed());
+}
